@@ -35,7 +35,7 @@ def run(run):
     ]
     run.regen("precedence", ["go", "run", "-C", "extract/precedence", ".", str(REPO / "lib" / "parser" / "parser.y")], "Csvq/Gen/Precedence.lean")
     run.obligations_for(["Csvq.Props.C18"])
-    run.stream("c18", 40000 if q else 400000)
+    run.stream("c18", 30000 if q else 400000)
     if not q:
         for k in range(1, 5):
             run.stream("c18", 300000, seed_offset=k)
